@@ -102,6 +102,10 @@ def run_path(world, it, ref, contract):
             it.param_syms[a.vararg.arg] = st.env[a.vararg.arg]
         if a.kwarg is not None:
             raise Unsupported("**kwargs parameter")
+        for cname, cspec in contract.closure.items():
+            v = it.fresh(cspec, cname)
+            st.env[cname] = v
+            it.param_syms[cname] = v
         for clause in contract.requires:
             it.assume(it.spec_eval(clause, st.env, ref))
         if not it.feasible():
